@@ -21,6 +21,16 @@ namespace c11
 
 VERIF_ROB(team_sig, team<i_mep>, hash_t, signature_)
 
+// private members whose *type* is private too (cache::slot): deduced return type
+template<class Tag, auto M> struct rob_auto
+{
+  friend auto get(Tag) { return M; }
+};
+struct cache_table_tag { friend auto get(cache_table_tag); };
+template struct rob_auto<cache_table_tag, &cache::table_>;
+struct cache_seal_tag { friend auto get(cache_seal_tag); };
+template struct rob_auto<cache_seal_tag, &cache::seal_>;
+
 class Zterm final : public terminal
 {
 public:
@@ -196,6 +206,69 @@ inline std::string snap(const summary<i_mep> &s)
                 + " acc=" + d(s.best.score.accuracy) + " az=" + u(s.az.age_dist().count())
                 + "," + u(s.az.fit_dist().count()) + "," + u(s.az.length_dist().count()));
   return r;
+}
+
+// cache: bits seal nlive (position d0 d1 fitness)*   -- live slots in table order
+inline std::string enc_cache(const cache &c, unsigned bits)
+{
+  const auto &tab(c.*get(cache_table_tag()));
+  const auto seal(c.*get(cache_seal_tag()));
+  desc o;
+  std::uint64_t n(0);
+  for (const auto &s : tab) if (s.seal == seal && !s.hash.empty()) ++n;
+  o << bits << seal << n;
+  for (std::size_t i(0); i < tab.size(); ++i)
+    if (tab[i].seal == seal && !tab[i].hash.empty())
+    {
+      o << i << tab[i].hash.data[0] << tab[i].hash.data[1];
+      o << enc(tab[i].fitness);
+    }
+  return o.s;
+}
+
+// a cache together with the keys its history touched (the probes of the lookup oracle)
+struct cache_case
+{
+  unsigned bits;
+  std::unique_ptr<cache> c;
+  std::vector<hash_t> keys;
+  unsigned clears = 0, stale = 0;
+};
+
+inline cache_case make_cache(splitmix &r)
+{
+  cache_case k;
+  k.bits = 1 + unsigned(r.below(r.below(4) ? 4 : 8));
+  k.c = std::make_unique<cache>(k.bits);
+  const unsigned pool(2 + unsigned(r.below(24)));
+  for (unsigned i(0); i < pool; ++i)
+  {
+    hash_t h(make_hash(r));
+    if (h.empty()) h = hash_t(1, 0);
+    if (r.below(3) == 0 && !k.keys.empty())      // force slot collisions
+      h = hash_t((k.keys[r.below(k.keys.size())].data[0] & ((1ull << k.bits) - 1)) | (r.next() << k.bits), r.next());
+    if (h.empty()) h = hash_t(1, 0);
+    k.keys.push_back(h);
+  }
+  for (auto j(r.below(60)); j; --j)
+    switch (r.below(10))
+    {
+    case 0: k.c->clear(); ++k.clears; break;
+    case 1: k.c->clear(k.keys[r.below(pool)]); break;
+    case 2: (void)k.c->find(k.keys[r.below(pool)]); break;
+    default: k.c->insert(k.keys[r.below(pool)], make_fit(r, false)); break;
+    }
+  const auto &tab(k.c.get()->*get(cache_table_tag()));
+  const auto seal(k.c.get()->*get(cache_seal_tag()));
+  for (const auto &s : tab) if (s.seal != seal && !s.hash.empty()) ++k.stale;
+  return k;
+}
+
+inline std::string lookups(const cache &c, const std::vector<hash_t> &keys)
+{
+  std::string s;
+  for (const auto &h : keys) s += " [" + enc(c.find(h)) + "]";
+  return s;
 }
 
 // ---- histories -----------------------------------------------------------------------------
